@@ -32,7 +32,7 @@ T = {
          "modelled separately; std::str::from_utf8 is mirrored by utf8Valid."),
  'C03': ("12 theorems over the model of RxPacketStream::poll_next, for unbounded streams and every chunking: "
          "framing_chunking_independent, framing_same_as_whole_packets, framing_eof_exact, framing_no_spurious_end, "
-         "framing_malformed_exact, framing_no_lost_wakeup, framing_reads_positive, framing_index_safe.",
+         "framing_malformed_exact, framing_no_lost_wakeup, framing_reads_positive, framing_index_safe. Whole executions (Properties/C03World): for every script the frames the context hands to the decoder are a prefix of the reference framing of everything fed, whatever the chunking (decoded_frames_are_reference_frames, chunking_independence_world), a sleeping context has consumed every complete frame (asleep_context_has_consumed_everything), SocketClosed is returned only for a cause (socket_closed_only_for_a_cause).",
          "AsyncRead contract (Ready(0) only for an empty buffer or EOF) assumed; native stack depth / allocation size outside the model "
          "(a process abort is detected by the orchestrator)."),
  'C04': ("decodeRx_never_panics, decVar_no_overflow (u32 arithmetic cannot overflow: debug and release agree), framing_index_safe, and "
@@ -55,14 +55,14 @@ T = {
          "Script-level theorems assume pairwise distinct OP identifiers (channels are named after them) and fewer than 2^28-1 subscribes."),
  'C08': ("acks_exact / acks_in_arrival_order: for every history of inputs served by run(), the acknowledgements written are exactly the "
          "acknowledgements owed, packet by packet, in order — whatever the subscriptions, dead streams or identifiers; decodeRx_wf makes the "
-         "unreachable!() of the PUBLISH arm unreachable. Whole executions (Properties/CtxLift): every poll of run() in every world drives the context through exactly a served history of decoder-well-formed inputs (world_poll_is_serve) and, with an unlimited transport, the bytes it hands to the transport are exactly the acknowledgements owed / the requests' own packets in order (world_poll_acks_exact, world_run_poll_is_serve).",
-         "Per-history theorems over Ctx.serve, lifted to every poll of run() in every world; the composition over all polls of one connection is work package W9."),
+         "unreachable!() of the PUBLISH arm unreachable. Whole executions (Properties/CtxLift): every poll of run() in every world drives the context through exactly a served history of decoder-well-formed inputs (world_poll_is_serve) and, with an unlimited transport, the bytes it hands to the transport are exactly the acknowledgements owed / the requests' own packets in order (world_poll_acks_exact, world_run_poll_is_serve). Properties/HistWorld: the same over the whole history of every connection of every script (c08_every_segment) and for all bytes a script hands to the transport (c08_bytes_of_a_script).",
+         "Per-history theorems over Ctx.serve, lifted to every poll of run() and to the whole history of every connection of every script."),
  'C09': ("inQos2_is_pending, redelivery_suppressed, first_delivery, pubrel_releases, qos2_delivered_once: along every history a QoS 2 PUBLISH "
-         "is dispatched iff its identifier is not pending since the last PUBREL, and is always answered with PUBREC. Whole executions (Properties/CtxLift): inbound_qos2 has no duplicates and only identifiers in 1..65535 in every reachable world (world_inQos2, world_inQos2_range); after every poll it is the q2Step fold of the poll's history (world_poll_inQos2).",
+         "is dispatched iff its identifier is not pending since the last PUBREL, and is always answered with PUBREC. Whole executions (Properties/CtxLift): inbound_qos2 has no duplicates and only identifiers in 1..65535 in every reachable world (world_inQos2, world_inQos2_range); after every poll it is the q2Step fold of the poll's history (world_poll_inQos2). Properties/HistWorld: c09_every_qos2_publish / c09_pubrel_releases characterise every QoS 2 PUBLISH and PUBREL event of every script against the pending set of the whole session history, and c09_stream_holds_what_the_history_gave ties it to what each stream yields.",
          "Per-history theorems over Ctx.serve, lifted to every poll of run() in every world."),
  'C10': ("quota_invariant: for EVERY Receive Maximum R and every input history the executable monitor P_C10 (outstanding ≤ R, QuotaExceeded "
          "exactly at R outstanding, every completion frees one slot) accepts the history, by a simulation relation quota + outstanding = R; "
-         "quota_bounded, qos0_and_others_never_limited, quota_after_connack. Whole executions (Properties/CtxLift): quota <= Receive Maximum in every reachable world of every script (world_quota_bounded); the monitor accepts the history of every poll of run() from every related state (world_poll_quota, world_poll_quota_fresh).",
+         "quota_bounded, qos0_and_others_never_limited, quota_after_connack. Whole executions (Properties/CtxLift): quota <= Receive Maximum in every reachable world of every script (world_quota_bounded); the monitor accepts the history of every poll of run() from every related state (world_poll_quota, world_poll_quota_fresh). Properties/HistWorld: the monitor accepts the WHOLE history of every connection of every script (c10_every_segment, c10_segment_after_connack), across all polls and cancelled-and-restarted run() calls.",
          "Histories with non-conformant acknowledgements leave the monitor's domain (stated in the monitor). Resumed sessions re-arm the quota "
          "to R while re-sent packets are in flight: outside C10's single-connection histories, noted in DESIGN.md."),
  'C11': ("alloc_closed_form, alloc_nonzero, alloc_unique_window, alloc_period (any two of fewer than 65535 consecutive allocations differ, "
@@ -85,7 +85,7 @@ T = {
          "The theorems are about the executor of PROTOCOL.md; read chunkings and write policies are compared on the implementation by the oracle (groups of scripts), and implementation = model on each."),
  'C17': ("sessionExpired_iff, resume_first_connection, resume_not_expired (re-sends exactly the queue, in order, keeps the waiters), resume_expired "
          "(re-sends nothing, drops every waiter), retx_is_unfinished / resume_resends_unfinished (the queue is the fold over the history: "
-         "DUP-marked PUBLISH without PUBACK/PUBREC, PUBREL without PUBCOMP), acked_not_resent, retx_order_preserved, retx_dup_marked, setDup_spec. Whole executions (Properties/CtxLift): the first poll of run() after a recorded disconnection re-sends exactly the retransmit queue before anything else (world_run_poll_is_serve) and the queue after every poll is the unfinished handshakes of its history (world_poll_retx).",
+         "DUP-marked PUBLISH without PUBACK/PUBREC, PUBREL without PUBCOMP), acked_not_resent, retx_order_preserved, retx_dup_marked, setDup_spec. Whole executions (Properties/CtxLift): the first poll of run() after a recorded disconnection re-sends exactly the retransmit queue before anything else (world_run_poll_is_serve) and the queue after every poll is the unfinished handshakes of its history (world_poll_retx). Properties/HistWorld: the retransmit queue is the unfinished handshakes of the whole session history over all connections (c17_retx_is_session_unfinished); every run() prelude re-sends exactly them before anything else, or nothing and drops every waiter when expired (c17_every_run_prelude, c17_resent_before_anything_else).",
          "The clock is a parameter (seconds since disconnection) and hook H1 records the disconnection (production code never does)."),
 }
 
